@@ -128,6 +128,11 @@ func validRedirectURI(uri string, rootDomains []string) bool {
 	if uri == "" || err != nil || redirectURL.Host == "" {
 		return false
 	}
+	// An IP literal is never below a proxy root domain, even if its IPv6 zone
+	// identifier ("[::1%25.example.com]") happens to end with one.
+	if strings.ContainsAny(redirectURL.Hostname(), ":%") {
+		return false
+	}
 	for _, domain := range rootDomains {
 		if strings.HasSuffix(redirectURL.Hostname(), domain) || redirectURL.Hostname() == strings.TrimLeft(domain, ".") {
 			return true
